@@ -134,6 +134,11 @@ Proof. exact ex_plain_stl_ok. Qed.
 Theorem C07_ttml_plain_faithful : plain_faithful 1000000 ttml_plain_ok ttml_enc ttml_dec.
 Proof. exact ttml_plain_faithful. Qed.
 Print Assumptions C07_ttml_plain_faithful.
+(* ... and with the decoder over the XML parser model for hand-written documents (Kit/XmlParse2.v), which is the one the
+   plain view registers for TTML sources (harness-rendered documents included) *)
+Theorem C07_ttml_plain_faithful2 : plain_faithful 1000000 ttml_plain_ok ttml_enc ttml_dec2.
+Proof. exact ttml_plain_faithful2. Qed.
+Print Assumptions C07_ttml_plain_faithful2.
 (* ANY source document the source reader accepts - styled, with metadata, in any rendering - whose text the destination
    can carry: converting it through the plain view gives a destination that reads back as the source's cues (times
    truncated to the destination's unit), with any operation sequence in between.  (For which pairs and sources the
